@@ -78,8 +78,8 @@ CLAIMED['C06'] = dict(
    technique="Coq proof of the strict-check equivalence and table-independence + independent bond count oracle on the implementation + exact correspondence",
    design_ref="5/C06")
 CLAIMED['C09'] = dict(
-   text="Proof (partial, props/C09.v): parse errors and kekulisation failures surface as EncoderError; the inputs named by the property (C11, F:F; crashed before the repairs) are rejected with EncoderError. Crash freedom of the whole encoder model is not proved: outcome classes of implementation and model are compared on broken / random / corner-case SMILES with all flag combinations. Two interpreter limits are known findings.",
-   technique="Coq proof (partial) + outcome-class correspondence on malformed SMILES + known-finding classifiers",
+   text="Kernel-checked for ALL strings (props/C09.v, proofs/ParserTotal.v): the first stage of the encoder - SMILES tokenizer and graph construction - never crashes: it returns a graph whose arrays agree in length, or the encoder raises EncoderError, or ValueError escapes from int() on an over-long digit field (interpreter limit, known finding); no IndexError / KeyError / AttributeError / AssertionError, loops terminate (invariant over the parser's stacks, ring log and placeholder slots). Also proved: parse errors and kekulisation failures surface as EncoderError; the inputs named by the property (C11, F:F; crashed before the repairs) are rejected with EncoderError. Not proved: crash freedom of the later stages (kekulisation, matching, emission): outcome classes of implementation and model are compared on broken / random / corner-case SMILES with all flag combinations on every run. Two interpreter limits are known findings.",
+   technique="Coq proof by invariant (parser stage total) + outcome-class correspondence on malformed SMILES + known-finding classifiers",
    design_ref="5/C09")
 CLAIMED['C10'] = dict(
    text="Proof (partial, props/C10.v): ring/branch symbols carry suffix 1..3 iff span-1 / length-1 < 16^3 and their Q symbols decode back. Per input: every emitted symbol is judged by the extracted symbol_in_grammar under the table, the decoder must accept, equivalent bracket spellings must give the same string, re-encoding the decoded SMILES must reproduce the string; atom-field extremes (every element, charges to +-100, H0-H9, isotopes with leading zeros) and spans at the 16^k boundaries.",
